@@ -168,11 +168,15 @@ def run_impl(case):
     except Exception as e:
         return "err " + S.exc_name(e), [], ["init-err"]
     a.on_trait_change(lambda obj, name, old, new: events.append((new.index, list(new.removed), list(new.added))), "x_items")
+    # the same deltas as seen by an observer of the items (observation/_list_change_event.py)
+    obs_events = []
+    a.observe(lambda ev: obs_events.append((ev.index, list(ev.removed), list(ev.added), ev.object)), "x:items")
     for opstr in [o for o in ops.split(";") if o.strip()]:
         w = opstr.split()
         snap = list(a.x)
         snap_obj = a.x
         del events[:]
+        del obs_events[:]
         if counter is not None:
             counter[0] = 0
         exc = None
@@ -200,6 +204,9 @@ def run_impl(case):
         if bad:
             hits.append(_hit("invalid-element:" + sig_op, "element(s) %r do not satisfy the inner trait" % bad[:3],
                              before=snap, after=after))
+        if [e[:3] for e in obs_events] != events or any(e[3] is not snap_obj for e in obs_events):
+            hits.append(_hit("observer-event-differs:" + sig_op, "the ListChangeEvent delivered to an observer of x.items differs "
+                             "from the TraitList notification", items_events=repr(events), observer_events=repr([e[:3] for e in obs_events])))
         if exc is not None:
             tags.add("err:" + S.exc_name(exc))
             if after != snap or a.x is not snap_obj:
